@@ -352,7 +352,7 @@ func RunInterrupt(ctx context.Context, c Case, dir string, o *Obs) error {
 	sa, _ := a.NewSession()
 	must := func(sess *util.Session, qs ...string) {
 		for _, q := range qs {
-			if r := sess.Exec(q); r.Err != "" && !c09.Tolerated(q, r.Err) {
+			if r := c09.Exec(sess, q); r.Err != "" && !c09.Tolerated(q, r.Err) {
 				o.ScriptErrs = append(o.ScriptErrs, q+": "+r.Err)
 			}
 		}
